@@ -103,7 +103,9 @@ Definition expected_leading_whitespace_reads : list string := [
   "core/src/defaults/reconstructor.rs:reconstruct";
   "core/src/defaults/reconstructor.rs:relocate_cursors";
   "core/src/defaults/reconstructor.rs:ws_len";
-  "core/src/lang.rs:new_from_tokens" ]%string.
+  "core/src/lang.rs:new_from_tokens";
+  "core/src/rules/ignore_asm_instructions.rs:ignore_tokens"   (* F33 repair: is a conditional directive on the physical line of an asm instruction? (inside asm blocks only) *)
+]%string.
 
 Definition expected_max_line_length_uses : list string := [
   "core/src/rules/optimising_line_formatter/mod.rs:?";
